@@ -1,5 +1,32 @@
-"""Regeneration of Frrs/Extracted.lean from /repo (filled in when the extractor is built)."""
+"""Regeneration of lean/Frrs/Extracted.lean from /repo's working tree (harness/src/extract.rs)."""
+import os
+from . import common as C
+
+TARGET = os.path.join(C.LEAN, 'Frrs', 'Extracted.lean')
 
 
-def regenerate(ctx):
+def regenerate(ctx=None):
+    """returns None on success; on an extractor failure records a broken correspondence"""
+    exe = os.path.join(C.TARGET, 'extract')
+    if not os.path.exists(exe):
+        ok, out = C.harness_build()
+        if not ok:
+            return 'harness build failed'
+    rc, out = C.run([exe, os.path.join(C.REPO, 'filter-repo-rs', 'src')], timeout=300)
+    if rc != 0:
+        msg = out.strip()[-600:]
+        if ctx is not None:
+            path = C.write_replay(ctx.pid, 'correspondence', dict(
+                correspondence='extraction of the orchestration tables from /repo failed closed (unknown shape/subcommand/callee): the obligations over Frrs/Extracted.lean are no longer about the current code',
+                extractor_output=msg))
+            ctx.violations.append((path, True, 'extractor failed closed: ' + msg[:200]))
+        return msg
+    # stdout only (stderr is merged by C.run; the extractor prints nothing else on success)
+    new = out
+    old = open(TARGET).read() if os.path.exists(TARGET) else None
+    if new != old:
+        tmp = TARGET + '.tmp'
+        with open(tmp, 'w') as f:
+            f.write(new)
+        os.replace(tmp, TARGET)
     return None
